@@ -156,10 +156,87 @@ impl<'tcx> Cx<'tcx> {
         }
     }
 
+    /// Local ADTs with a Drop impl whose destructor the drop glue of `ty` can run (by definition path).
+    fn local_dtors(&self, ty: Ty<'tcx>, depth: u32, out: &mut Vec<String>) {
+        if depth > 8 {
+            return;
+        }
+        let tcx = self.tcx;
+        match ty.kind() {
+            ty::Adt(def, args) => {
+                if def.is_phantom_data() || def.is_manually_drop() || def.is_union() {
+                    return;
+                }
+                if tcx.adt_destructor(def.did()).is_some() {
+                    if def.did().is_local() {
+                        let p = self.path(def.did());
+                        if !out.contains(&p) {
+                            out.push(p);
+                        }
+                        return;
+                    }
+                    for a in args.iter() {
+                        if let Some(t) = a.as_type() {
+                            self.local_dtors(t, depth + 1, out);
+                        }
+                    }
+                    return;
+                }
+                for f in def.all_fields() {
+                    self.local_dtors(f.ty(tcx, args), depth + 1, out);
+                }
+            }
+            ty::Tuple(ts) => {
+                for t in ts.iter() {
+                    self.local_dtors(t, depth + 1, out);
+                }
+            }
+            ty::Array(t, _) | ty::Slice(t) => self.local_dtors(*t, depth + 1, out),
+            ty::Closure(_, cargs) => {
+                for t in cargs.as_closure().upvar_tys().iter() {
+                    self.local_dtors(t, depth + 1, out);
+                }
+            }
+            _ => {}
+        }
+    }
+
     fn ty_json(&self, ty: Ty<'tcx>, env: TypingEnv<'tcx>) -> String {
+        self.ty_json_d(ty, env, 0)
+    }
+
+    fn ty_json_d(&self, ty: Ty<'tcx>, env: TypingEnv<'tcx>, nest: u32) -> String {
         let (adt, depth) = self.ty_adt(ty);
         let mut o = String::new();
         let _ = write!(o, "{{\"s\":{}", esc(&ty.to_string()));
+        // type arguments of an ADT (one level of nesting is enough for containers of the crate's types)
+        if nest < 2 {
+            if let ty::Adt(_, args) = ty.kind() {
+                let mut parts: Vec<String> = Vec::new();
+                for a in args.iter() {
+                    if let Some(t) = a.as_type() {
+                        parts.push(self.ty_json_d(t, env, nest + 1));
+                    }
+                }
+                if !parts.is_empty() {
+                    let _ = write!(o, ",\"args\":[{}]", parts.join(","));
+                }
+            }
+            if let ty::Tuple(ts) = ty.kind() {
+                let parts: Vec<String> = ts.iter().map(|t| self.ty_json_d(t, env, nest + 1)).collect();
+                if !parts.is_empty() {
+                    let _ = write!(o, ",\"args\":[{}]", parts.join(","));
+                }
+            }
+        }
+        if ty.needs_drop(self.tcx, env) {
+            let mut l: Vec<String> = Vec::new();
+            self.local_dtors(ty, 0, &mut l);
+            if !l.is_empty() {
+                let parts: Vec<String> = l.iter().map(|p| esc(p)).collect();
+                let _ = write!(o, ",\"ldt\":[{}]", parts.join(","));
+            }
+        }
         if let Some(a) = adt {
             let _ = write!(o, ",\"adt\":{},\"peel\":{}", esc(&self.path(a)), depth);
         }
@@ -774,14 +851,16 @@ impl<'tcx> Cx<'tcx> {
                             first = false;
                             let reach = f.did.as_local().map(|l| ev.is_reachable(l)).unwrap_or(false);
                             let fty = tcx.type_of(f.did).instantiate_identity().skip_norm_wip();
+                            let fenv = TypingEnv::post_analysis(tcx, did);
                             let _ = write!(
                                 fs,
-                                "{{\"variant\":{},\"name\":{},\"vis\":{},\"reachable\":{},\"ty\":{}}}",
+                                "{{\"variant\":{},\"name\":{},\"vis\":{},\"reachable\":{},\"ty\":{},\"tyj\":{}}}",
                                 esc(&v.name.to_string()),
                                 esc(&f.name.to_string()),
                                 esc(&format!("{:?}", f.vis)),
                                 reach,
-                                esc(&fty.to_string())
+                                esc(&fty.to_string()),
+                                self.ty_json(fty, fenv)
                             );
                         }
                     }
